@@ -51,7 +51,7 @@ PAT_OPTION_LINE = re.compile(r":[^:`\s][^:`]*:(\s|$)")
 PAT_BLOCK_HAS_ARGUMENT = re.compile(r"^\x20*\.\.\x20[^\s]+::\s*\S+")
 PAT_OPTION = re.compile(r"((?:/|--|-|\+)?[^\s=]+)(=?\s*.*)")
 PAT_ISO_8601 = re.compile(r"^([0-9]{4})-(1[0-2]|0[1-9])-(3[01]|0[1-9]|[12][0-9])$")
-PAT_PARAMETERS = re.compile(r"\s*\(.*?\)\s*$")
+PAT_PARAMETERS = re.compile(r"\s*\(.*?\)\s*$", re.DOTALL)
 
 #: Hard-coded sequence of domains in which to search for a directives
 #: and roles if no domain is explicitly provided.. Eventually this should
